@@ -114,6 +114,10 @@ def rules(ctx):
 
 def successor_rules(ctx, rid="R4"):
     """the successor of a vehicle is read from its own cycle (shared with C16)"""
+    from . import formulas
+    before = len(ctx.obligations)
+    formulas.transition_formulas(ctx, rid)
+    ctx.obligations[before:] = [o for o in ctx.obligations[before:] if "get_successor_of" in o.id]
     # R4: update_vehicle keeps the membership of the cycle
     o, fd = ctx.require_fn("%s.update-keeps-cycle-members" % rid, "T1", TR("update_vehicle"),
                            "update_vehicle rebuilds the cycle with the same vehicle vector")
